@@ -53,7 +53,15 @@ def main():
     faulthandler.dump_traceback_later(timeout + 60, exit=True)
     mod, ck = core.run_module(pid, a.tier, a.seed, nsh, timeout)
     extra = mod.verdict(ck) if hasattr(mod, 'verdict') else None
-    code = core.finish(ck, mod.RULE, mod.ASSUMPTIONS, extra, getattr(mod, 'LEVEL', None))
+    rule = mod.RULE
+    try:
+        import json
+        added = json.load(open(os.path.join(os.path.dirname(os.path.abspath(__file__)), 'added_families.json'))).get(pid)
+        if added:
+            rule = rule + ' ' + added       # families added while testing the check against seeded changes (DESIGN 2a)
+    except (OSError, ValueError):
+        pass
+    code = core.finish(ck, rule, mod.ASSUMPTIONS, extra, getattr(mod, 'LEVEL', None))
     sys.stdout.flush()
     os._exit(code)
 
